@@ -779,6 +779,8 @@ class Interp:
                 return getattr(obj, name)
         if isinstance(obj, (int, float, complex)) and hasattr(obj, name):
             return getattr(obj, name)
+        if getattr(type(obj), "__absint_host__", False) and hasattr(obj, name):
+            return getattr(obj, name)
         if has_default:
             return default
         raise Unsupported(f"attribute {name} of {type(obj).__name__}")
@@ -845,6 +847,9 @@ class Interp:
             callm = self.class_attr(fn.rel, fn.cls.name, "__call__", fn)
             return self.call(callm, args, kwargs)
         if isinstance(fn, ModRef):
+            hook = getattr(self, "ext_calls", {}).get(fn.name)
+            if hook is not None:
+                return hook(*args, **kwargs)
             raise Unsupported(f"call of external {fn.name}")
         if isinstance(fn, TypeSet):
             # float(x), bool(x), ...
@@ -852,7 +857,10 @@ class Interp:
             conv = {"float": float, "int": int, "bool": bool, "str": str, "complex": complex, "tuple": tuple, "list": list, "dict": dict, "set": set}.get(nm)
             if conv is None:
                 raise Unsupported(f"constructor {nm}")
-            return conv(*args)
+            try:
+                return conv(*args, **kwargs)
+            except (TypeError, ValueError) as e:
+                raise PyRaise(f"{type(e).__name__} {e}")
         try:
             return self.call(fn, args, kwargs)
         except (ZeroDivisionError, OverflowError, ValueError) as e:
